@@ -41,6 +41,10 @@ pub fn in_range(chain: &[MBlock], s: u64, e: u64) -> Vec<MBlock> {
 
 pub fn expect_success(r: &RunResult) -> Vec<Mismatch> {
     let mut v = vec![];
+    if r.stderr.contains("VERIF-HANG") {
+        v.push(mm("run-does-not-terminate", format!("{} | stdout so far: {} bytes", r.stderr.lines().last().unwrap_or(""), r.stdout.len())));
+        return v;
+    }
     if r.stderr.contains("VERIF-TIMEOUT") || r.stderr.starts_with("SPAWN-ERROR") {
         v.push(mm("machinery-timeout", r.stderr.lines().last().unwrap_or("").to_string()));
         return v;
